@@ -762,6 +762,34 @@ fn run_timing(t: &Timing) -> (Duration, String, Option<(String, String)>, bool) 
 //
 fn free_running_cells() -> Vec<(String, Option<(String, String)>)> {
     let mut out = Vec::new();
+    // an address the kernel rejects at once (an unzoned link-local one: EINVAL) ahead of the accepting one:
+    // one more attempt that failed, nothing else
+    for extra_refusing in [false, true] {
+        let name = format!("rejected-address-then-accepting{}", if extra_refusing { ":with-a-refusing-one" } else { "" });
+        let refusing = if extra_refusing { bound_not_listening(false, 0) } else { None };
+        let peer = start_peer(0, Addr { v6: false, accepts: true }, 0);
+        let (Some(peer), true) = (peer, refusing.is_some() == extra_refusing) else {
+            out.push((name, None));
+            continue;
+        };
+        let mut list: Vec<SocketAddr> = vec!["[fe80::1]:7777".parse().unwrap()];
+        list.extend(refusing.iter().map(|r| r.1));
+        list.push(peer.addr);
+        attohttpc::verif::set_resolution("einval.test", Some(list));
+        let t0 = Instant::now();
+        let res = guarded(|| attohttpc::get("http://einval.test:7777/").connect_timeout(Duration::from_secs(3)).read_timeout(Duration::from_secs(5)).send().and_then(|r| r.text()));
+        let el = t0.elapsed();
+        attohttpc::verif::set_resolution("einval.test", None);
+        peer.stop.store(true, Ordering::SeqCst);
+        let viol = match &res {
+            Ok(Ok(b)) if b == "L0" && el < Duration::from_secs(3) => None,
+            other => Some((
+                "reachable-address-not-used".to_string(),
+                format!("an address that cannot be dialled at all ([fe80::1] without a zone) ahead of an accepting one: {} after {el:?}", format!("{other:?}").chars().take(160).collect::<String>()),
+            )),
+        };
+        out.push((name, viol));
+    }
     // the largest connect timeout ("no separate limit"): a refusing address ahead, or the only address
     for (with_refusing, with_deadline) in [(false, false), (true, false), (true, true), (false, true)] {
         let name = format!("connect-timeout-max:{}{}", if with_refusing { "refusing-then-accepting" } else { "one-accepting" }, if with_deadline { ":far-deadline" } else { "" });
